@@ -169,6 +169,9 @@ def run(ctx) -> None:
     ctx.rule("C16.R11-serialisation-is-injective", "_memoization_info_to_hash separates the keys and values it concatenates (a delimiter, a length "
              "prefix, or a structured dump): without one, different (executable, arguments) pairs serialise to the same text")
     ctx.rule("C16.R12-no-hash-stays-no-hash", "the public hash properties post-process a computed hash (prefix, join, format) only when it is not None")
+    ctx.rule("C16.R14-file-part-of-a-producer-reference-is-hashed", "when a reference is replaced by its PRODUCER's hash (the file is not hashed by "
+             "content: a directory, fuzzy mode) the replacement still carries the file part of the reference (fileRef): 'ls prod/a:ref' and "
+             "'ls prod/b:ref' are different command lines (fails on the current tree: known finding)")
     ctx.rule("C16.R13-one-entry-per-consumed-file", "the 'files' ingredient of the hashed information has one entry per consumed file: it is built as a "
              "list over the consumed files and never passes through a set (or dict keys): two distinct files with identical contents, consumed "
              "through the same method, are two entries - a component that consumes one of them is different work")
@@ -418,6 +421,23 @@ def run(ctx) -> None:
                 "every reference is replaced as a whole, so the processing order is immaterial") if ok else
                "references are substituted in an order that is not longest-first and not as whole references: the relative spelling "
                "can be replaced inside an absolute one", construct=short(s.call, 80) + " <- order-independent")
+
+    # ---------------- R14: the file part survives a replacement by the producer's hash ---------------------
+    prod_repl = [a for a in source.walk_own(fn) if isinstance(a, ast.Assign) and len(a.targets) == 1 and isinstance(a.targets[0], ast.Name)
+                 and isinstance(a.value, ast.Call) and last_attr(a.value) == "join"
+                 and any(isinstance(x, ast.Constant) and x.value == "producer" for x in ast.walk(a.value))]
+    ctx.floor("C16.R14-file-part-of-a-producer-reference-is-hashed", len(prod_repl), 1, "replacements of a reference by its producer's hash")
+    for a in prod_repl:
+        var = a.targets[0].id
+        # every later re-assembly of the replacement (replacement = ':'.join((replacement, d.method))) counts
+        chain = [a.value] + [b.value for b in source.walk_own(fn) if isinstance(b, ast.Assign) and any(isinstance(t, ast.Name) and t.id == var for t in b.targets)
+                             and any(isinstance(x, ast.Name) and x.id == var for x in ast.walk(b.value))]
+        has_file = any(isinstance(x, ast.Attribute) and x.attr in ("fileRef", "path", "filename") for e in chain for x in ast.walk(e))
+        ctx.ob("C16.R14-file-part-of-a-producer-reference-is-hashed", a, has_file,
+               "the replacement by the producer's hash keeps the file part of the reference" if has_file else
+               "a reference that is replaced by 'producer:<producer hash>:<method>' loses its file part: 'ls prod/a:ref' and 'ls prod/b:ref' (two "
+               "sub-directories of one producer) get the same strong and fuzzy hash although the command lines differ",
+               construct="replacement = 'producer:<hash>' <- file part of the reference")
 
     # ---------------- R13: multiplicity of the consumed files ----------------------------------------------
     files_vals = [v for d_ in ast.walk(fn) if isinstance(d_, ast.Dict) for (k, v) in zip(d_.keys, d_.values)
